@@ -85,7 +85,7 @@ def run(out, info, tier, seed):
     t0 = time.time()
     for k in range(n):
         crng = random.Random(seed * 1000003 + k)
-        case = gen.gen_parallel_case(crng) if k % 3 == 2 else gen.gen_case(crng, groups=True, clean=0.8, maxn=4)
+        case = gen.gen_fanin_case(crng) if k % 6 == 1 else gen.gen_parallel_case(crng) if k % 3 == 2 else gen.gen_case(crng, groups=True, clean=0.8, maxn=4)
         variants = []
         for lazy in (True, False):
             for cache in (True, False):
